@@ -87,14 +87,18 @@ fn str_run(a: &Args) -> Args {
     let wire = bytes(&arg(a, 2));
     let ops: Vec<Vec<u128>> = a.iter().skip(3).cloned().collect();
     let mut res: Args = Vec::new();
-    let r = catch_unwind(AssertUnwindSafe(|| run_ops(&cfg, &wire, &ops, &mut res)));
+    let gate0 = arg(a, 0).get(1).copied().unwrap_or(0) as usize;
+    let r = catch_unwind(AssertUnwindSafe(|| run_ops(&cfg, &wire, gate0, &ops, &mut res)));
     if r.is_err() {
         res.push(vec![PANIC]);
     }
     res
 }
 
-fn run_ops(cfg: &fastcgi_server::Config, wire: &[u8], ops: &[Vec<u128>], res: &mut Args) {
+fn run_ops(cfg: &fastcgi_server::Config, full: &[u8], gate0: usize, ops: &[Vec<u128>], res: &mut Args) {
+    // `wire` = the bytes the client has sent so far; grows at op 6
+    let mut gate = if gate0 == 0 { full.len() } else { gate0.min(full.len()) };
+    let mut wire = &full[..gate];
     let mut rp = parser::request::Parser::new(cfg);
     let mut out = Vec::new();
     let (_done, unfed) = feed(&mut rp, wire, &[], &mut out);
@@ -170,6 +174,8 @@ fn run_ops(cfg: &fastcgi_server::Config, wire: &[u8], ops: &[Vec<u128>], res: &m
                         return;
                     },
                     Ok(mut rp) => {
+                        gate = (gate + a1 as usize).min(full.len());
+                        wire = &full[..gate];
                         let mut out3 = Vec::new();
                         let (done, unfed) = feed(&mut rp, &wire[pos..], &[], &mut out3);
                         pos = wire.len() - unfed;
